@@ -369,6 +369,62 @@ fn extra_programs() -> Vec<ArgCase> {
         main.push(b.print(vec![var("I%"), var("CNT%"), el(num(1)), el(num(2)), el(num(3))]));
         out.push(ArgCase { prog: Prog { main, subs, declare: true, ..Default::default() }, label: format!("array element by reference: {}", label), expect_reject: false });
     }
+    // a STATIC subprogram that calls itself: its variables are shared by the activations, its parameters are not
+    for variant in 0..3 {
+        for depth in 1..=3 {
+            let mut b = B::new();
+            let p_int = |n: &str| Param { name: n.into(), ty: None, is_array: false };
+            let mut main = vec![];
+            let mut subs = vec![];
+            let label = match variant {
+                0 => {
+                    // SUB Rec (N%) STATIC: C% = C% + 1: IF N% > 0 THEN Rec N% - 1: PRINT N%; C%
+                    let call_self = b.s(K::Call("Rec".into(), vec![bin(BinOp::Sub, var("N%"), num(1))]));
+                    let body = vec![
+                        b.assign(var("C%"), bin(BinOp::Add, var("C%"), num(1))),
+                        b.s(K::If { arms: vec![(bin(BinOp::Gt, var("N%"), num(0)), vec![call_self])], els: None, single_line: false }),
+                        b.print(vec![var("N%"), var("C%")]),
+                    ];
+                    let id = b.id();
+                    subs.push(SubDef { id, name: "Rec".into(), is_function: false, params: vec![p_int("N%")], body, is_static: true });
+                    main.push(b.s(K::Call("Rec".into(), vec![num(depth)])));
+                    main.push(b.s(K::Call("Rec".into(), vec![num(0)])));
+                    "by-value argument"
+                }
+                1 => {
+                    // the argument is a variable of the STATIC sub itself, passed by reference
+                    let call_self = b.s(K::Call("Rec".into(), vec![var("M%")]));
+                    let inner = vec![b.assign(var("M%"), bin(BinOp::Sub, var("N%"), num(1))), call_self, b.print(vec![st("back"), var("N%"), var("M%")])];
+                    let body = vec![
+                        b.s(K::If { arms: vec![(bin(BinOp::Gt, var("N%"), num(0)), inner)], els: None, single_line: false }),
+                        b.assign(var("N%"), bin(BinOp::Add, var("N%"), num(10))),
+                    ];
+                    let id = b.id();
+                    subs.push(SubDef { id, name: "Rec".into(), is_function: false, params: vec![p_int("N%")], body, is_static: true });
+                    main.push(b.assign(var("X%"), num(depth)));
+                    main.push(b.s(K::Call("Rec".into(), vec![var("X%")])));
+                    main.push(b.print(vec![var("X%")]));
+                    "by-reference argument that is a variable of the subprogram"
+                }
+                _ => {
+                    // FUNCTION Fact& (N%) STATIC: the parameter is used after the recursive call returned
+                    let then = vec![b.assign(var("Fact&"), num(1))];
+                    let els = vec![b.assign(var("T&"), call("Fact&", vec![bin(BinOp::Sub, var("N%"), num(1))])), b.assign(var("Fact&"), bin(BinOp::Mul, var("T&"), var("N%")))];
+                    let body = vec![
+                        b.assign(var("Calls%"), bin(BinOp::Add, var("Calls%"), num(1))),
+                        b.s(K::If { arms: vec![(bin(BinOp::Le, var("N%"), num(1)), then)], els: Some(els), single_line: false }),
+                        b.print(vec![var("N%"), var("Calls%")]),
+                    ];
+                    let id = b.id();
+                    subs.push(SubDef { id, name: "Fact&".into(), is_function: true, params: vec![p_int("N%")], body, is_static: true });
+                    main.push(b.print(vec![call("Fact&", vec![num(depth + 1)])]));
+                    main.push(b.print(vec![call("Fact&", vec![num(2)])]));
+                    "FUNCTION using its parameter after the recursive call"
+                }
+            };
+            out.push(ArgCase { prog: Prog { main, subs, declare: true, ..Default::default() }, label: format!("STATIC subprogram calling itself, depth {}: {}", depth, label), expect_reject: false });
+        }
+    }
     for depth in 0..=3 {
         let mut b = B::new();
         // FUNCTION Sum%(N%): a local per activation must survive the recursive call
